@@ -1191,6 +1191,9 @@ func main() {
 		nt := r.N(36, 360)
 		vh.Parallel(nt, 12, func(i int) { tickSequence(r, i) })
 		r.Require("tick_sequence_trials", int64(nt*3/4))
+		nnr := r.N(8, 80)
+		vh.Parallel(nnr, 4, func(i int) { notARepositoryTrial(r, i) })
+		r.Require("not_a_repository_trials", int64(nnr))
 		nsr := r.N(12, 120)
 		vh.Parallel(nsr, 6, func(i int) { subjectRemovedTrial(r, i) })
 		r.Require("subject_removed_trials", int64(nsr*3/4))
